@@ -1309,6 +1309,8 @@ class TrgModel(Model):
                     self.cron_cache["C"] = stored
                     if not self._sat(m, stored):
                         return ("ok",)
+                elif not self._sat(m, cached):
+                    return ("ok",)  # never executed: the schedule still decides (repo fix da5f365)
                 self.cron["C"] = m
                 self.cron_cache["C"] = m
                 self.valid[f"valid_condition_<C>_context_cron_{(BASE_DT + timedelta(minutes=m)).isoformat()}"] = "C"
